@@ -8,9 +8,7 @@ package main
 
 import (
 	"fmt"
-	"os"
 	"sort"
-	"strconv"
 	"strings"
 
 	"github.com/crossplane/crossplane/internal/controller/apiextensions/claim"
@@ -654,16 +652,12 @@ func init() {
 			// exhaustive small scopes: shard j (= seed mod 1000) enumerates world j
 			ws := c08ExhWorlds()
 			j := int(c.Seed % 1000)
+			deep := []int{14, 10, 9, 8, 10, 8, 10, 9}
 			for v := j; v < len(ws); v += 8 {
+				// every schedule of 6 enabled steps, every step of a reconcile with all 5 outcomes
 				c08Exhaustive(c, v, ws[v], 6, []string{"ok", "fail", "conflict", "crashBefore", "crashAfter"}, 60000)
-			}
-			if d := os.Getenv("C08_DEEP"); d != "" {
-				// measurement aid: fault-free interleavings to a larger depth
-				n, _ := strconv.Atoi(d)
-				for v := j; v < len(ws); v += 8 {
-					k := c08Exhaustive(c, v, ws[v], n, []string{"ok"}, 400000)
-					fmt.Fprintf(os.Stderr, "world %d depth %d: %d\n", v, n, k)
-				}
+				// every fault-free schedule to a larger depth (world 0 is exhausted: nothing is enabled any more)
+				c08Exhaustive(c, v, ws[v], deep[v%len(deep)], []string{"ok"}, 60000)
 			}
 		}
 		for i := 0; i < c.N; i++ {
